@@ -2,6 +2,8 @@
 From Coq Require Import NArith ZArith List Lia.
 From Mtbl Require Import gen.Consts model.Bytes model.Order model.Block model.Writer
   proofs.OrderProofs proofs.WriterProofs.
+(* source ties: the statements of the C functions the model follows (gen/Ties.v is regenerated from /repo on every run) *)
+From Mtbl Require props.Ties_C08.
 Local Open Scope N_scope.
 
 Section C08.
